@@ -42,7 +42,7 @@ def judge(ctx: Ctx, evs):
 
 
 def self_test(ctx: Ctx):
-    good = {"k": "crop", "raised": False, "n": [4, 5], "n2": [3, 5], "shifted": True, "parity": "odd", "full": False,
+    good = {"k": "crop", "raised": False, "n": [4, 5], "n2": [3, 5], "shifted": True, "parity": "odd", "full": False, "beyond_grid": False,
             "maps": [[1, 2, -1, 0], [2, 3, 4, 0, 1]]}
     b1 = dict(good, maps=[[0, 1, -1, 2], [2, 3, 4, 0, 1]])                   # unshifted positions reported for a shifted pattern
     b2 = dict(good, n2=[4, 5], maps=[[2, 3, 0, 1], [2, 3, 4, 0, 1]])          # even size although odd parity was requested
